@@ -24,19 +24,26 @@ class Chooser:
     """Deterministic choice source: a list of ints consumed cyclically.
     An all-zero (or empty) vector selects the canonical spelling."""
 
-    def __init__(self, vec):
+    def __init__(self, vec, off=(), comment_rate=7):
+        self.comment_rate = comment_rate if isinstance(comment_rate, int) and comment_rate >= 2 else 7
         self.vec = list(vec) or [0]
         self.i = 0
         self.noncanon = 0
+        self.off = set(off)
+        self.used = set()
 
-    def __call__(self, k):
+    def __call__(self, k, feature=None):
         v = self.vec[self.i % len(self.vec)]
         self.i += 1
         if not isinstance(v, int) or k <= 1:
             return 0
         r = v % k
+        if feature in self.off:
+            return 0
         if r:
             self.noncanon += 1
+            if feature:
+                self.used.add(feature)
         return r
 
 
@@ -88,9 +95,33 @@ def lower(tree):
     return out
 
 
+def desugar(tree):
+    """Replace sugar nodes by the plain nodes they stand for (keeps hoisting)."""
+    out = []
+    for n in tree:
+        k = n[0]
+        if k in ('varset', 'varsetn', 'varload', 'varsize', 'macro', 'comptime', 'comptime_exec'):
+            out.extend(lower([n]))
+        elif k == 'def':
+            out.append(['def', n[1], desugar(n[2])])
+        elif k == 'if':
+            out.append(['if', desugar(n[1])] + ([desugar(n[2])] if len(n) > 2 and n[2] else []))
+        elif k == 'ife':
+            out.append(['ife', desugar(n[1]), desugar(n[2])] + ([desugar(n[3])] if len(n) > 3 and n[3] else []))
+        elif k == 'try':
+            out.append(['try', desugar(n[1]), desugar(n[2])])
+        elif k == 'loop':
+            out.append(['loop', desugar(n[1])])
+        else:
+            out.append(n)
+    return out
+
+
+FEATURES = ('comments', 'endstyle', 'hoist', 'sugar', 'case', 'alias', 'values', 'pushsize')
+
 # ----------------------------------------------------------------- rendering
 def _case(s, ch):
-    c = ch(3)
+    c = ch(3, 'case')
     if c == 0:
         return s.upper()
     if c == 1:
@@ -106,13 +137,13 @@ def _opname(code, ch):
         return _case('NOP%d' % code, ch)
     nm = O.NAMES[code]
     forms = [nm] + O.ALIASES[nm]
-    return _case(forms[ch(len(forms))], ch)
+    return _case(forms[ch(len(forms), 'alias')], ch)
 
 
 def _hexval(b, ch):
-    p = 'xX'[1 if ch(5) == 4 else 0]
+    p = 'xX'[1 if ch(5, 'values') == 4 else 0]
     h = b.hex()
-    if ch(4) == 3:
+    if ch(4, 'values') == 3:
         h = h.upper()
     return p + h
 
@@ -148,14 +179,14 @@ def _value(b, ch, allow_d=True, allow_s=True):
         s = _is_clean_str(b)
         if s is not None:
             forms.append('s')
-    f = forms[ch(len(forms))]
+    f = forms[ch(len(forms), 'values')]
     if f == 'x':
         return _hexval(b, ch)
     if f == 'd':
         n = int.from_bytes(b, 'big', signed=True)
-        return 'dD'[1 if ch(5) == 4 else 0] + str(n)
+        return 'dD'[1 if ch(5, 'values') == 4 else 0] + str(n)
     s = _is_clean_str(b)
-    q = '"\''[ch(2)]
+    q = '"\''[ch(2, 'values')]
     return 's' + q + s + q
 
 
@@ -163,7 +194,7 @@ def _u8(n, ch, signed_dec=True):
     """One-byte operand: x-hex canonical, decimal variant."""
     if not isinstance(n, int) or not 0 <= n <= 255:
         return 'd%d' % n          # unencodable on purpose
-    if ch(2) == 0:
+    if ch(2, 'values') == 0:
         return _hexval(bytes([n]), ch)
     if signed_dec:
         return 'd%d' % (n - 256 if n > 127 else n)
@@ -171,19 +202,45 @@ def _u8(n, ch, signed_dec=True):
 
 
 COMMENT_WORDS = ['hello', 'x01', 'd5', 'if', '{', '}', 'end_if', 'else', 'push', 'true', '(', ')', '~', '@x',
-                 '[', ']', 'end_def', 'loop', 'try', 'except', '~!', 'def', '0', 'end_loop', '!m', '@=', 'y']
+                 '[', ']', 'end_def', 'loop', 'try', 'except', '~!', 'def', '0', 'end_loop', '!m', '@=', 'y',
+                 '~ {', '~! {', '} else {', 'end_if }', '( true )', '!= m [']
+
+
+_CW_CLASSES = {
+    'comments:tilde': ('~', '~!'),
+    'comments:braces': ('{', '}'),
+    'comments:parens': ('(', ')'),
+    'comments:brackets': ('[', ']'),
+    'comments:keywords': ('if', 'end_if', 'else', 'end_def', 'loop', 'try', 'except', 'def', 'end_loop', 'push', 'true'),
+    'comments:sugar': ('@x', '!m', '@='),
+}
+COMMENT_SUBFEATURES = tuple(_CW_CLASSES)
+
+
+HOSTILE = ['~ {', '~! {', '}', '} }', '{', '(', ')', 'end_if', 'else', 'end_def', '} else {', '[', ']', '!= m [ a ] {',
+           'end_loop', 'except', 'end_except', '{ {']
 
 
 def _comment(ch):
-    if ch(7) != 6:
+    if ch(ch.comment_rate, 'comments') != ch.comment_rate - 1:
         return ''
-    q = ['#', '"', "'"][ch(3)]
-    n = ch(4)
+    q = ['#', '"', "'"][ch(3, 'comments')]
+    n = ch(4, 'comments')
     words = []
     for _ in range(n):
-        w = COMMENT_WORDS[ch(len(COMMENT_WORDS))]
+        w = COMMENT_WORDS[ch(len(COMMENT_WORDS), 'comments')]
         words.append(w)
-    return ' ' + q + ' ' + ' '.join(words) + (' ' if words else '') + q + ' '
+    if ch(3, 'comments') == 2:
+        # a single hostile body between hashtags
+        q = '#'
+        words = [HOSTILE[ch(len(HOSTILE), 'comments')]]
+    out = []
+    for w in words:
+        for sub, ws in _CW_CLASSES.items():
+            if sub in ch.off and any(t in ws for t in w.split()):
+                w = 'hello'
+        out.append(w)
+    return ' ' + q + ' ' + ' '.join(out) + (' ' if out else '') + q + ' '
 
 
 def _ends_dangling(tree_tail_src_kind):
@@ -199,6 +256,8 @@ def render(tree, ch, _in_def=False, _force_end_last=False, _ctx=None):
     """Render a source tree to text.  Returns the text.  `_force_end_last`
     makes the last statement avoid brace style (dangling ELSE/EXCEPT rule)."""
     ctx = _ctx or _Ctx()
+    if 'sugar' in ch.off and _ctx is None:
+        tree = desugar(tree)
     parts = []
     for idx, n in enumerate(tree):
         last = idx == len(tree) - 1
@@ -230,7 +289,7 @@ def _stmt(n, ch, ctx, force_end=False):
         if sh == 'lv1':
             v = ops[0]
             if code == C['OP_PUSH1']:
-                if ch(3) == 2:
+                if ch(3, 'pushsize') == 2:
                     # size omitted: legal only when an op name / special symbol follows; the
                     # renderer appends nothing, so a rejection here is a documented quirk
                     return nm + ' ' + _hexval(v, ch)
@@ -242,21 +301,21 @@ def _stmt(n, ch, ctx, force_end=False):
             return nm + ' ' + _value(v, ch, allow_d=False)
         if sh == 'lv2':
             v = ops[0]
-            if ch(3) == 2:
+            if ch(3, 'pushsize') == 2:
                 return nm + ' ' + _hexval(v, ch)
             return nm + ' d%d ' % len(v) + _hexval(v, ch)
         if sh == 'wc':
             key, cnt = ops
             kt = _value(key, ch, allow_d=False)
             # unsigned decimal key form
-            if key and key[0] != 0 and len(key) <= 6 and ch(4) == 3:
+            if key and key[0] != 0 and len(key) <= 6 and ch(4, 'values') == 3:
                 kt = 'd%d' % int.from_bytes(key, 'big')
-            elif key == b'\x00' and ch(4) == 3:
+            elif key == b'\x00' and ch(4, 'values') == 3:
                 kt = 'd0'
             return nm + ' ' + kt + ' ' + _u8(cnt, ch, signed_dec=False)
         if sh == 'f4':
             v = ops[0]
-            if len(v) == 4 and ch(2) == 1:
+            if len(v) == 4 and ch(2, 'values') == 1:
                 f = struct.unpack('!f', v)[0]
                 if f == f and abs(f) < 2 ** 31 and f == int(f) and struct.pack('!f', float(int(f))) == v:
                     return nm + ' f%d' % int(f)
@@ -269,7 +328,7 @@ def _stmt(n, ch, ctx, force_end=False):
             return nm + ' ' + _hexval(ops[0], ch)
         raise R.NotEncodable(sh)
     if k == 'push':
-        nm = _case(['OP_PUSH', 'PUSH'][ch(2)], ch)
+        nm = _case(['OP_PUSH', 'PUSH'][ch(2, 'alias')], ch)
         return nm + ' ' + _value(n[1], ch)
     if k == 'varset':
         return '@= ' + n[1] + ' [ ' + ' '.join(_value(v, ch) for v in n[2]) + (' ' if n[2] else '') + ']'
@@ -286,24 +345,30 @@ def _stmt(n, ch, ctx, force_end=False):
         a1, a2 = 'arg1', 'second'
         return ('!= %s [ %s %s ] { %s %s %s %s } !%s [ %s %s ]' % (
             mname, a1, a2, _case('push', ch), a1, _case('copy', ch), a2,
-            _case(mname, ch) if False else mname, _value(v, ch), _u8(cnt, ch)))
+            mname, _value(v, ch), _u8(cnt, ch)))
     if k == 'comptime':
-        return _case(['OP_PUSH', 'PUSH'][ch(2)], ch) + ' ~ { ' + render(n[1], ch, _ctx=ctx) + ' }'
+        return _case(['OP_PUSH', 'PUSH'][ch(2, 'alias')], ch) + ' ~ { ' + render(n[1], ch, _ctx=ctx) + ' }'
     if k == 'comptime_exec':
         return _case('push', ch) + ' ~! { ' + _case('push', ch) + ' ' + _value(n[1], ch) + ' ' + _case('sha256', ch) + ' }'
     if k == 'def':
         h = n[1]
-        hs = [str(h), 'd%d' % h, 'x%02x' % h][ch(3)] if isinstance(h, int) and 0 <= h <= 255 else str(h)
-        brace = ch(3) != 2
-        kw = _case(['OP_DEF', 'DEF'][ch(2)], ch)
+        hs = [str(h), 'd%d' % h, 'x%02x' % h][ch(3, 'values')] if isinstance(h, int) and 0 <= h <= 255 else str(h)
+        brace = ch(3, 'endstyle') != 2
+        kw = _case(['OP_DEF', 'DEF'][ch(2, 'alias')], ch)
         return kw + ' ' + hs + ' ' + _block(n[2], ch, ctx, brace, 'END_DEF')
     if k in ('if', 'ife'):
-        kw = _case(['OP_IF', 'IF'][ch(2)], ch)
+        kw = _case(['OP_IF', 'IF'][ch(2, 'alias')], ch)
         hoisted = n[2] if k == 'if' and len(n) > 2 else (n[3] if k == 'ife' and len(n) > 3 else None)
         hs = ''
+        pre = ''
         if hoisted:
-            hs = '( ' + render(hoisted, ch, _ctx=ctx) + ' ) '
-        brace = ch(3) != 2
+            if 'hoist' in ch.off:
+                pre = render(hoisted, ch, _ctx=ctx) + ' '
+            else:
+                ch.used.add('hoist')
+                hs = '( ' + render(hoisted, ch, _ctx=ctx) + ' ) '
+        kw = pre + kw
+        brace = ch(3, 'endstyle') != 2
         if k == 'if':
             if force_end:
                 brace = False
@@ -315,12 +380,12 @@ def _stmt(n, ch, ctx, force_end=False):
         return (kw + ' ' + hs + a + (' ' if a else '') + _case('ELSE', ch) + ' ' +
                 _block(n[2], ch, ctx, False, 'END_IF'))
     if k == 'try':
-        kw = _case(['OP_TRY', 'TRY'][ch(2)], ch)
-        brace = ch(3) != 2
+        kw = _case(['OP_TRY', 'TRY'][ch(2, 'alias')], ch)
+        brace = ch(3, 'endstyle') != 2
         a, b = n[1], n[2]
         if brace:
             s = kw + ' ' + _block(a, ch, ctx, True, '')
-            if b or (ch(2) == 1 and not force_end):
+            if b or (ch(2, 'endstyle') == 1 and not force_end):
                 s += ' ' + _case('EXCEPT', ch) + ' ' + _block(b, ch, ctx, True, '')
             elif force_end:
                 # dangling-EXCEPT rule: always spell the (empty) EXCEPT out
@@ -330,7 +395,7 @@ def _stmt(n, ch, ctx, force_end=False):
         return (kw + ' ' + ar + (' ' if ar else '') + _case('EXCEPT', ch) + ' ' +
                 _block(b, ch, ctx, False, 'END_EXCEPT'))
     if k == 'loop':
-        kw = _case(['OP_LOOP', 'LOOP'][ch(2)], ch)
-        brace = ch(3) != 2
+        kw = _case(['OP_LOOP', 'LOOP'][ch(2, 'alias')], ch)
+        brace = ch(3, 'endstyle') != 2
         return kw + ' ' + _block(n[1], ch, ctx, brace, 'END_LOOP')
     raise R.NotEncodable('node %r' % (k,))
